@@ -18,7 +18,10 @@ MANIFEST = dict(
           "iwxstr and iwpool are tied and oracle-checked but carry only small lemmas; the check models the tree with the C18 fix commits"),
     technique="Lean 4 proof over executable model + differential correspondence (C harness vs compiled Lean driver) + python reference oracle")
 MODULE = "IwModel.Props.C18"
-THEOREMS = []
+THEOREMS = ["IwModel.C18." + n for n in (
+    "consts_ok",
+    "avl_insert_refines", "avl_remove_refines", "avl_bst", "avl_balanced", "avl_lookup_iff", "avl_bounds_spec", "avl_refines_set",
+)]
 
 M32 = 0xffffffff
 H = lambda b: bytes(b).hex() or "-"
